@@ -9,8 +9,11 @@ import sys, os, subprocess, json, shutil, tempfile, glob, time
 V = os.path.dirname(os.path.dirname(os.path.abspath(__file__)))
 args = sys.argv[1:]
 kind = 'mutants'
+only = None
 if args and args[0] == '--kind':
     kind = args[1]; args = args[2:]
+if args and args[0] == '--only':
+    only = args[1]; args = args[2:]
 names = args or sorted(os.path.basename(p)[:-5] for p in glob.glob(os.path.join(V, kind, '*.diff')))
 wt = tempfile.mkdtemp(prefix='yui-mut-')
 os.rmdir(wt)
@@ -23,8 +26,10 @@ try:
         r = subprocess.run(['git', '-C', wt, 'apply', os.path.join(V, kind, name + '.diff')], capture_output=True, text=True)
         if r.returncode != 0:
             print('%-40s PATCH DOES NOT APPLY: %s' % (name, r.stderr.strip()[:200])); fails += 1; continue
-        env = dict(os.environ, YUI_REPO=wt, VERIF_SCRATCH='1')
+        env = dict(os.environ, YUI_REPO=wt, VERIF_SCRATCH='1', VERIF_TIER='quick')
         for pid, exp in meta['expect'].items():
+            if only and pid != only:
+                continue
             t0 = time.time()
             r = subprocess.run([os.path.join(V, 'check'), pid], capture_output=True, text=True, env=env, cwd=V)
             out = r.stdout + r.stderr
